@@ -358,6 +358,19 @@ CAMPAIGNS['C09'] = [
          fault_step='lastbuild', post='tag_all:C09',
          sweep_max={'quick': 8, 'thorough': None}, follow=1),
 ]
+CAMPAIGNS['C09'].append(
+    camp('c09-preemption-sweep', 'threads', {}, THREAD_RULE +
+         '; single-preemption sweep: in the first threaded build thread a is '
+         'pre-empted at its i-th yield point for every (a, i) (quick: 12 '
+         'sampled points per scenario; thorough: all)',
+         mode='sched-sweep', nontrivial=nt_threads, chunk=3,
+         post='tag_all:C09', sweep_max={'quick': 12, 'thorough': None}))
+CAMPAIGNS['C08'].append(
+    camp('c08-preemption-sweep', 'threads', {'p_same_key': 1.0},
+         'same key from 2-3 threads, single-preemption sweep of the first '
+         'threaded build', mode='sched-sweep', nontrivial=nt_threads,
+         chunk=3, post='tag_all:C08',
+         sweep_max={'quick': 12, 'thorough': None}))
 CAMPAIGNS['C08'].append(
     camp('c08-threads', 'threads', {'p_same_key': 1.0},
          'two or three simulated threads issue the same build_file / '
@@ -375,6 +388,11 @@ CAMPAIGNS['C17'] = [
          'what only the straggler read and rebuilding)',
          nontrivial=nt_threads),
 ]
+CAMPAIGNS['C17'].append(
+    camp('c17-preemption-sweep', 'stragglers', {},
+         'stragglers, single-preemption sweep of the first scheduled build',
+         mode='sched-sweep', nontrivial=nt_threads, chunk=3,
+         sweep_max={'quick': 12, 'thorough': None}))
 SWAP_RULE = ('two root programs whose output paths sit above / below each '
              'other (file <-> directory swaps of outputs between builds)')
 NESTED_RULE = ('build_file functions that build nested outputs and then fail, '
@@ -524,6 +542,38 @@ def run_case(camp, seed, tier='quick'):
             sc['fault'] = res['fault']
         _account(out, sc, res, camp)
         out['runs'] += res.get('runs', 1) - 1
+    elif mode == 'sched-sweep':
+        # complete single-preemption sweep of the first threaded build:
+        # thread a is pre-empted at its i-th yield point, for every a and i
+        import copy
+        idx = [i for i, s in enumerate(sc['steps']) if s.get('sched')]
+        if not idx:
+            res = run_scenario(sc)
+            _account(out, sc, res, camp)
+        else:
+            t = idx[0]
+            probe = copy.deepcopy(sc)
+            probe['steps'][t]['sched'] = {'policy': 'sweep', 'thread': -1,
+                                          'at': -1}
+            res = run_scenario(probe)
+            _account(out, probe, res, camp)
+            ys = (res.get('thread_yields') or [[]])[0]
+            points = [(a, i) for a in range(1, len(ys))
+                      for i in range(ys[a] + 1)]
+            cap = camp.get('sweep_max', {}).get(tier)
+            if cap is not None and len(points) > cap:
+                import random
+                rr = random.Random(seed)
+                points = rr.sample(points, cap)
+            if res['verdict'] == 'ok':
+                for a, i in points:
+                    c = copy.deepcopy(sc)
+                    c['steps'][t]['sched'] = {'policy': 'sweep', 'thread': a,
+                                              'at': i}
+                    r2 = run_scenario(c)
+                    _account(out, c, r2, camp)
+                    if r2['verdict'] != 'ok':
+                        break
     else:
         raise ValueError(mode)
     if seed % 97 == 0:
@@ -535,7 +585,11 @@ def _account(out, sc, res, camp):
     out['runs'] += 1
     out['verdicts'].append(res['verdict'])
     out['log_digest'] = res.get('log_digest')
-    out['stats'] = res.get('stats', {})
+    if out['stats']:
+        from .check import merge_stats
+        merge_stats(out['stats'], res.get('stats', {}))
+    else:
+        out['stats'] = res.get('stats', {})
     out['sched_digests'] = res.get('sched_digests', [])
     if res['verdict'] == 'violation':
         out['violations'].append((sc, res))
